@@ -596,6 +596,10 @@ func (x *EvalCtx) callExpr(n *ECall) Val {
 	case "sameNumber":
 		u, f := x.eval(n.Args[0]), x.eval(n.Args[1])
 		return Val{T: boolT, S: eq(app("to_real", u.S), app("fp.to_real", f.S))}
+	case "itoa":
+		a := x.eval(n.Args[0])
+		x.s.c.declare("itoa", "(declare-fun itoa (Int) Str)")
+		return Val{T: strT, S: app("itoa", a.S)}
 	case "readerText":
 		a := x.eval(n.Args[0])
 		x.s.c.declare("readerOf", "(declare-fun readerOf (Int) Str)")
